@@ -59,7 +59,7 @@ META = dict(
     bounds=dict(
         quick="U1 (2 parents, 2 children; nullable + NOT NULL FK; bidirectional, collection-only and many-to-one-only under both class-name orders), U3 with 3 nodes "
         "(all pairs; bidirectional and each single direction) and 4 nodes (start graphs <= 2 rows), U2 2x2, U4, U8 (start graphs <= 2 rows); 2 routes",
-        thorough="same worlds, U3 with 4 nodes all pairs, U8 all pairs, cascade 'all' variants; 4 routes",
+        thorough="same worlds, U3 with 4 nodes all pairs, U8 all pairs, cascade 'all' variants (targets that keep a child of a deleted parent are outside the domain there); 4 routes",
     ),
 )
 SHARD_TIMEOUT = dict(quick=600, thorough=3000)
@@ -328,7 +328,6 @@ def spaces(tier):
             dict(world=("U1", ALL), names=["p1", "p2", "c1", "c2"], max0=None),
             dict(world=("U3", ALL), names=["n1", "n2", "n3"], max0=None),
             dict(world=("U8", ALL), names=["h1", "h2", "b1", "b2"], max0=2),
-            dict(world=("U7", SU), names=["p1", "p2", "c1", "c2"], max0=None),
         ]
     return out
 
@@ -351,14 +350,14 @@ def routes(tier):
 
 
 def valid_target(space, g0, g1):
-    """delete cascades: with cascade 'delete' a child of a deleted parent cannot stay; such targets are not in the domain"""
+    """delete cascades: with cascade 'delete' (or a database-level ON DELETE rule) a child of a deleted parent cannot
+    stay -- session.delete(parent) marks it at once when the deletes are issued first; such targets are not in the domain"""
     spec = space.spec
     for l in spec.links:
         if "delete" in l.c_o2m:
             for (ln, n), p in g0["par"].items():
-                if ln == l.name and p is not None and p not in g1["present"] and n in g1["present"] and g1["par"].get((ln, n)) != p:
-                    # the driver re-parents n before the flush, so the cascade does not reach it: allowed
-                    pass
+                if ln == l.name and p is not None and p not in g1["present"] and n in g1["present"]:
+                    return False
     return True
 
 
@@ -386,6 +385,9 @@ def run_shard(shard, tier, rec):
             if idx % NPART != shard["part"]:
                 continue
             nkinds = classify(space, g0, g1)
+            if not valid_target(space, g0, g1):
+                rec.count("targets_outside_domain")
+                continue
             for route, order in routes(tier):
                 case = dict(shard={k: shard[k] for k in ("world", "names")}, g0=_enc(g0), g1=_enc(g1), route=route, order=order)
                 for fk_on in (True, False):
